@@ -126,10 +126,28 @@ def run_case(c: Dict[str, Any]) -> Dict[str, Any]:
             w.connect_plan[len(w.connect_log)] = 'refused'
         return orig_on_connect(addr, source_address, **kw)
     w.on_connect = on_connect     # type: ignore[method-assign]
+    if c.get('refuse_first'):
+        # the upstream picked first is down: whatever the proxy does next (give up, or try another URL of the route), a request
+        # that does get forwarded must be the one its endpoint's URL asks for
+        w.connect_plan[0] = 'refused'
     w.order = ['client', 'origin0']
     w.schedule = c['schedule']
-    w.run_local()
-    return {'world': w, 'client': client, 'origins': origins, 'req': req}
+    # no TLS handshake can complete inside this single-threaded world (https endpoints refuse the connect, so the unchanged
+    # code never starts one): an attempt is recorded and fails at once instead of blocking on a peer that cannot answer
+    import ssl
+    from proxy.core.connection.server import TcpServerConnection
+    wraps: List[Any] = []
+    real_wrap = TcpServerConnection.wrap
+
+    def wrap(self_: Any, hostname: Any = None, *a: Any, **kw: Any) -> None:
+        wraps.append((hostname, tuple(self_.addr)))
+        raise ssl.SSLError('vf: TLS handshake attempted inside harness K')
+    TcpServerConnection.wrap = wrap      # type: ignore[method-assign]
+    try:
+        w.run_local()
+    finally:
+        TcpServerConnection.wrap = real_wrap      # type: ignore[method-assign]
+    return {'world': w, 'client': client, 'origins': origins, 'req': req, 'wraps': wraps}
 
 
 def evaluate(c: Dict[str, Any]) -> Tuple[List[Any], Dict[str, Any]]:
@@ -156,7 +174,19 @@ def evaluate(c: Dict[str, Any]) -> Tuple[List[Any], Dict[str, Any]]:
             return [('worker-died', dict(feat, exc=(w.exceptions or [('', 'loop-stopped')])[0][1].split(':')[0]), w.exceptions[:1], None)], info
         got = bytes(client.inbuf)
         conns = [(x['addr'], x['result']) for x in w.connect_log]
+        if r_['wraps']:
+            # every https endpoint refuses the connect here, so a handshake can only have been started on a connection to an
+            # endpoint that an http:// URL names
+            return [('tls-handshake-towards-a-plain-http-upstream', feat, r_['wraps'][:2], 'no TLS towards http:// URLs')], info
         p = H.parse_responses(got, [c['req']['method']], eof=client.eof_iter is not None)
+        if c.get('refuse_first') and matching and conns:
+            established = [x for x in conns if x[1] == 'ok']
+            if not established:
+                info['refused_only'] = True
+                if bytes(b''.join(bytes(o.inbuf) for o in r_['origins'])):
+                    out.append(('request-bytes-at-an-origin-without-a-connection', feat, conns, None))
+                return out, info
+            conns = established[:1] if len(established) == 1 else established
         if not matching:
             if conns:
                 out.append(('outbound-connection-without-matching-route', feat, conns, []))
@@ -291,7 +321,7 @@ def cases(draw: Any) -> Dict[str, Any]:
             if h[0].lower() not in names:
                 req['headers'].append(h)
     raw_len = len(G.render(req))
-    return {'table': table, 'req': req, 'rewrite': draw(st.booleans()),
+    return {'table': table, 'req': req, 'rewrite': draw(st.booleans()), 'refuse_first': draw(st.integers(0, 5)) == 0,
             'segs': draw(st.lists(st.integers(1, max(2, raw_len)), max_size=3)),
             'schedule': draw(st.lists(st.integers(0, 2), max_size=20))}
 
@@ -329,6 +359,8 @@ def run_shard(spec: Dict[str, Any], seed: int, acc: Any) -> None:
             labs.append('upgrade-proposal')
         if info.get('https_observed'):
             labs.append('https-upstream-port-observed')
+        if c.get('refuse_first'):
+            labs.append('first-connect-refused' + (':gave-up' if info.get('refused_only') else ''))
         if info.get('inconclusive'):
             acc.dontcare += 1
         acc.case(c, info['nroutes'] >= 2 and info['matches'] >= 1, labels=labs)
